@@ -5,7 +5,10 @@ import json, os, sys
 HERE = os.path.dirname(os.path.dirname(os.path.abspath(__file__)))
 pid = sys.argv[1]
 p = next(json.loads(l) for l in open(os.path.join(HERE, "properties.jsonl")) if json.loads(l)["id"] == pid)
-d = f"/tmp/seed/{pid}"
+d = f"/tmp/seed/{sys.argv[2] if len(sys.argv) > 2 else pid}"
+if len(sys.argv) > 3:       # second round: ask for changes of a different kind than the ones other people already produced
+    print("(Other engineers already produced these changes for the same property; yours must be of a DIFFERENT kind -- touch "
+          "other code paths, other features of the library, other configurations:\n  " + sys.argv[3] + ")\n")
 print(f"""You are working on a scratch git worktree of the open-source project kuznia-rdzeni/transactron (a Python library for
 Amaranth HDL that elaborates Bluespec-style transactions/methods into hardware) located at {d}.
 Work ONLY inside {d}. Never read or modify /repo or /verif (do not even list /verif).
